@@ -69,29 +69,69 @@ def same_weights(a, b):
     return len(a) == len(b) and all(x.shape == y.shape and np.array_equal(x, y, equal_nan=True) for x, y in zip(a, b))
 
 
+def documented_score(est, X, y, batch_size=None):
+    """The validation score of the current weights as the documented procedure defines it: GEMINI of the predictions on
+    sequential blocks of the estimator's batch_size (whole data when None), averaged with the block sizes; the affinity
+    is the block of the precomputed matrix, or computed on the block (selected features only in dynamic mode).
+    Independent of compute_val_score."""
+    gem = est.get_gemini()
+    saved = getattr(gem, "calls", None)
+    bs = batch_size if batch_size is not None else (est.batch_size if est.batch_size is not None else len(X))
+    sel = np.arange(X.shape[1])
+    if est.dynamic and y is None:
+        cur = est.get_selection()
+        if len(cur):
+            sel = cur
+    tot, j = 0.0, 0
+    while j < len(X):
+        Xb = X[j:j + bs]
+        aff = y[j:j + bs][:, j:j + bs] if y is not None else gem.compute_affinity(Xb[:, sel])
+        tot += gem(est.predict_proba(Xb), aff) * len(Xb)
+        j += bs
+    if saved is not None:
+        gem.calls = saved           # stateful test GEMINI (NanAfter): the extra evaluations must not count
+    return float(tot / len(X))
+
+
 def run_traced(est, X, y, kwargs, wall):
     """Run est.path(X, y, **kwargs) with compute_val_score and est._batchify wrapped.  Returns a dict with the
-    events, the outcome ('returned' / 'timeout' / exception class name), the result tuple, the warnings."""
+    events, the outcome ('returned' / 'timeout' / exception class name), the result tuple, the warnings.
+    The wrappers are signature-agnostic: they forward whatever they receive and read the state from the estimator,
+    so keyword calls or new defaulted parameters of the wrapped functions are harmless."""
     events = []
     trained = [False]
     orig_cvs = B.compute_val_score
     orig_batchify = est._batchify
+    out = {"events": events, "outcome": None, "result": None, "error": None, "doc_init": None, "doc_init_full": None, "foreign_calls": 0}
 
     def rec_batchify(*a, **k):
         trained[0] = True
         return orig_batchify(*a, **k)
 
-    def rec_cvs(clf, Xv, yv, batch_size, gem):
-        score, l1 = orig_cvs(clf, Xv, yv, batch_size, gem)
+    def rec_cvs(*args, **kwargs):
+        ret = orig_cvs(*args, **kwargs)
+        if not any(v is est for v in list(args) + list(kwargs.values())):
+            out["foreign_calls"] += 1       # not a call about the traced estimator
+            return ret
+        try:
+            score, l1 = float(ret[0]), float(ret[1])
+        except Exception:  # noqa
+            score, l1 = float("nan"), float("nan")
+            out["bad_return"] = True
         kind = "init" if not events else ("epoch" if trained[0] else "val")
         trained[0] = False
-        events.append({"kind": kind, "score": float(score), "l1": float(l1), "pen": float(clf._group_lasso_penalty()),
-                       "nsel": int(clf._n_selected_features()), "alpha": float(clf.alpha), "w": snap(clf)})
-        return score, l1
+        if kind == "init" and not isinstance(getattr(est, "gemini", None), NanAfter):   # stateful test GEMINI: not recomputable
+            try:
+                out["doc_init"] = documented_score(est, X, y)
+                out["doc_init_full"] = documented_score(est, X, y, batch_size=len(X))
+            except Exception as e:  # noqa
+                out["doc_init_error"] = f"{type(e).__name__}: {e}"[:200]
+        events.append({"kind": kind, "score": score, "l1": l1, "pen": float(est._group_lasso_penalty()),
+                       "nsel": int(est._n_selected_features()), "alpha": float(est.alpha), "w": snap(est)})
+        return ret
 
     est._batchify = rec_batchify
     B.compute_val_score = rec_cvs
-    out = {"events": events, "outcome": None, "result": None, "error": None}
     t0 = time.time()
     old = signal.signal(signal.SIGALRM, _alarm)
     _Timer.fired = False
@@ -331,6 +371,19 @@ def check_case(chk, case, stream, sig=None, est_xy=None, expect_same_as=None):
         if not close(e["l1"], e["pen"] * e["alpha"]):
             chk.fail("path:weighted-penalty", f"compute_val_score returned l1={e['l1']} but penalty*alpha={e['pen'] * e['alpha']}", replay)
             break
+    # the reference score of the initial unpenalised fit must be the validation score the documented procedure gives
+    # (batch-averaged over the estimator's batch_size, like every other score of the path): recomputed independently
+    traced_init_score = init["score"]
+    doc = run.get("doc_init")
+    if doc is None:
+        if run.get("doc_init_error"):
+            chk.notes.append("documented initial score unavailable: " + str(run.get("doc_init_error")))
+    elif not close(doc, traced_init_score):
+        chk.fail("path:initial-score-not-batch-averaged",
+                 f"the initial fit is scored {traced_init_score!r} by path() but its validation score over blocks of batch_size="
+                 f"{case['batch_size']} is {doc!r} (full-data value {run.get('doc_init_full')!r}): the best-score reference is not comparable "
+                 f"with the scores of the steps", replay, layer="L3")
+        init = dict(init, score=doc)        # the model and the oracle use the documented reference
     if init["alpha"] != 0.0:
         chk.fail("path:initial-fit-alpha", f"the initial fit was validated with clf.alpha={init['alpha']} instead of 0", replay)
 
@@ -519,6 +572,56 @@ def stream_dynzero(chk, i, rng):
     check_case(chk, case, "dynzero")
 
 
+def rule_index(keep, s0, geminis, nfeat, d):
+    best, idx = s0, None
+    for t, (g, n) in enumerate(zip(geminis, nfeat)):
+        if g >= best and n == d:
+            best = g
+        if g >= keep * best:
+            idx = t
+    return idx
+
+
+def stream_keepwindow(chk, i, rng):
+    """Mini-batches (batch_size < n), a large initial alpha (the initial fit stays the best all-features score) and a
+    keep_threshold drawn next to a ratio score/reference, where the returned step is most sensitive to the reference
+    score of the initial fit: a probe run gives the histories (they do not depend on keep_threshold), then the real
+    run uses the chosen threshold."""
+    case = make_case(rng, i, chk.tier, {"dynamic": False, "precomputed": bool(i % 5 == 4)})
+    case["n"] = int(rng.integers(24, 41))
+    case["batch_size"] = int(rng.choice([case["n"] // 3, case["n"] // 2, 7, 5]))
+    case.update({"alpha": float(rng.choice([2.0, 5.0, 10.0, 20.0])), "alpha_multiplier": float(rng.choice([1.3, 1.5, 2.0])),
+                 "learning_rate": float(rng.choice([0.05, 0.2])), "max_iter": int(rng.integers(3, 7)), "restore_best_weights": True,
+                 "min_features": 1, "keep_threshold": 0.9, "scale": float(rng.choice([0.3, 1.0]))})
+    est, X, y, pk = build(case)
+    probe = run_traced(est, X, y, dict(pk, restore_best_weights=False), WALL_NORMAL)
+    keep, kind = 0.9, "default"
+    if probe["outcome"] == "returned" and probe["doc_init"] is not None and len(probe["result"][1]) > 0:
+        g, nf = [float(v) for v in probe["result"][1]], [int(v) for v in probe["result"][4]]
+        s0, s0f = probe["doc_init"], probe["doc_init_full"]
+        cands = []
+        if s0 == s0 and s0f == s0f and s0 + s0f != 0:
+            mid = 0.5 * (s0 + s0f)
+            for t in range(len(g)):       # thresholds for which the answer depends on how the initial fit is scored
+                k = g[t] / mid
+                if 0 <= k <= 1 and rule_index(k, s0, g, nf, case["d"]) != rule_index(k, s0f, g, nf, case["d"]):
+                    cands.append((k, "reference-sensitive"))
+        if not cands and s0 == s0:
+            best = s0
+            for t in range(len(g)):       # thresholds next to a ratio score / running best
+                if g[t] >= best and nf[t] == case["d"]:
+                    best = g[t]
+                if best != 0:
+                    k = (g[t] / best) * (1 + float(rng.choice([-1, 1])) * float(rng.choice([1e-6, 1e-3, 2e-2])))
+                    if 0 <= k <= 1:
+                        cands.append((k, "near-ratio"))
+        if cands:
+            keep, kind = cands[int(rng.integers(0, len(cands)))]
+    case["keep_threshold"] = float(keep)
+    chk.dist["keepwindow:" + kind] += 1
+    check_case(chk, case, "keepwindow")
+
+
 def stream_nan(chk, i, rng):
     if i % 2 == 0:
         case = make_case(rng, i, chk.tier, {"estimator": ["SparseLinearModel", "SparseMLPModel"][(i // 2) % 2], "precomputed": False, "dynamic": False})
@@ -580,7 +683,7 @@ def stream_twice(chk, i, rng):
 
 
 STREAMS = {"grid": (stream_grid, 130, 2500), "badargs": (stream_badargs, 42, 500), "dynamic": (stream_dynamic, 24, 300),
-           "dynzero": (stream_dynzero, 16, 160),
+           "dynzero": (stream_dynzero, 16, 160), "keepwindow": (stream_keepwindow, 24, 300),
            "nan": (stream_nan, 20, 200), "alpha0": (stream_alpha0, 6, 30), "patience0": (stream_patience0, 8, 60),
            "defaults": (stream_defaults, 6, 60), "twice": (stream_twice, 5, 50)}
 
@@ -625,7 +728,8 @@ def main():
     chk.finish(rule="streams: traced real path() runs on the 5 sparse estimators x (13 registry names + 13 GEMINI instances / MMD kernels / MI) x "
                     "argument grid (alpha, multiplier incl. <=1, min_features incl. <=0 and >=d, keep_threshold incl. outside [0,1], early_stopping_factor, "
                     "max_patience incl. 0, restore on/off), dynamic mode, precomputed affinity, batch sizes (None, <n, >=n), groups, injected and natural NaN, "
-                    "omitted arguments, repeated calls; n<=25, d<=6, max_iter<=6.  non-trivial = at least one completed outer step; "
+                    "omitted arguments, repeated calls, mini-batches with large alpha and keep_threshold drawn next to score/reference ratios (probe run first); "
+                    "the initial reference score is recomputed independently over the documented validation blocks; n<=40, d<=6, max_iter<=6.  non-trivial = at least one completed outer step; "
                     "distinct = distinct (estimator, GEMINI, #steps, returned step, NaN, dynamic, precomputed, warning flags, restore, batching) signature",
                extra={"regenerated": chk.regenerated})
 
